@@ -317,6 +317,8 @@ pub enum Body {
     H(Vec<Run>),
     /// Events are `(is_b, event)`.
     Y(CallCfg, CallCfg, Vec<(bool, CallEv)>),
+    /// Two streams on one graph, each created at its first event; events are `(is_b, event)`.
+    Z(StreamCfg, StreamCfg, Vec<(bool, SEv)>),
 }
 
 #[derive(Clone, Debug)]
@@ -334,6 +336,7 @@ impl RtCase {
             Body::S(..) => 'S',
             Body::H(..) => 'H',
             Body::Y(..) => 'Y',
+            Body::Z(..) => 'Z',
         }
     }
 }
@@ -372,6 +375,17 @@ pub fn fmt_rt_case(c: &RtCase) -> String {
                 format!("{}:{}", if *is_b { 'B' } else { 'A' }, fmt_call_ev(e))
             });
             format!("{head} | {} | {} | {}", fmt_call_cfg(a), fmt_call_cfg(b), evs)
+        }
+        Body::Z(a, b, evs) => {
+            let evs = fmt_list(evs, |(is_b, e)| {
+                format!("{}:{}", if *is_b { 'B' } else { 'A' }, fmt_sev(e))
+            });
+            format!(
+                "{head} | {} | {} | {}",
+                fmt_stream_cfg(a),
+                fmt_stream_cfg(b),
+                evs
+            )
         }
     }
 }
@@ -487,7 +501,7 @@ fn parse_ev_list<T>(s: &str, f: impl Fn(&str) -> Result<T, String>) -> Result<Ve
     s.split_whitespace().map(f).collect()
 }
 
-/// Parses a `CASE X|S|H|Y` line; `Ok(None)` for every other line.
+/// Parses a `CASE X|S|H|Y|Z` line; `Ok(None)` for every other line.
 pub fn parse_rt_case_line(line: &str) -> Result<Option<RtCase>, String> {
     let line = line.trim_end();
     let kind = match line.strip_prefix("CASE ").and_then(|r| r.split(' ').next()) {
@@ -495,6 +509,7 @@ pub fn parse_rt_case_line(line: &str) -> Result<Option<RtCase>, String> {
         Some("S") => 'S',
         Some("H") => 'H',
         Some("Y") => 'Y',
+        Some("Z") => 'Z',
         _ => return Ok(None),
     };
     let parts: Vec<&str> = line.split('|').collect();
@@ -551,6 +566,23 @@ pub fn parse_rt_case_line(line: &str) -> Result<Option<RtCase>, String> {
                 }
             }
             Body::H(runs)
+        }
+        'Z' => {
+            if parts.len() != 5 {
+                return Err(format!("CASE Z needs 5 sections, got {}", parts.len()));
+            }
+            let a = parse_stream_cfg(parts[2])?;
+            let b = parse_stream_cfg(parts[3])?;
+            let evs = parse_ev_list(parts[4], |t| {
+                if let Some(r) = t.strip_prefix("A:") {
+                    Ok((false, parse_sev(r)?))
+                } else if let Some(r) = t.strip_prefix("B:") {
+                    Ok((true, parse_sev(r)?))
+                } else {
+                    Err(format!("pair event without `A:`/`B:`: `{t}`"))
+                }
+            })?;
+            Body::Z(a, b, evs)
         }
         _ => {
             if parts.len() != 5 {
